@@ -128,7 +128,7 @@ CHECKS = {
              "a handler handles the successor of the last sequence it returned from (in order, exactly once, no gaps), only sequences that are completely written and covered by the producer cursor, and "
              "what it sees is intact (slot not re-used, all earlier stages done with it, no later stage touched it); sequence 0 is never delivered (known finding D7). The per-thread programs of the "
              "real code are tied to the model by TRACE VALIDATION: the extracted acceptors (Disruptor/Threads.v) must accept every logged trace operation for operation (kind, location, ordering, "
-             "operand, control flow). The same facts hold without the atomic-snapshot abstraction and with stale loads (Disruptor/HB.v, hb_delivery). Multi producer under true concurrency (Disruptor/MultiPub.v): everything at or below the cursor - consumers never pass it - is completely written and published, in every interleaving. Monitors on every explored schedule check the property on the implementation itself; multi-producer DELIVERY of everything published is violated (stranding = known finding D8).",
+             "operand, control flow), AND every logged trace is replayed on the proof models themselves (Disruptor/PipeReplay.v on Pipeline.v, Disruptor/MultiReplay.v on MultiPub.v: each logged operation must be an enabled step of the model in the state reached, with the model's value; replay_sound: an accepted trace ends in a reachable model state, so the theorems apply to the execution just observed). The same facts hold without the atomic-snapshot abstraction and with stale loads (Disruptor/HB.v, hb_delivery). Multi producer under true concurrency (Disruptor/MultiPub.v): everything at or below the cursor - consumers never pass it - is completely written and published, in every interleaving. Monitors on every explored schedule check the property on the implementation itself; multi-producer DELIVERY of everything published is violated (stranding = known finding D8).",
         note=LEVEL_NOTE_COMMON + "Axioms: none. " + "the deterministic scheduler hooks (cfg deepcausality_rs_deep_causality_verif) make every atomic / mutex / condvar operation and slot access of the real code a scheduling point and log it with its real Ordering; Reading several cursors is abstracted to one step returning any value not above the current values (sound by monotonicity). "
              "Multi-producer delivery is explored, not proved; C11 stale reads are not explored.",
         technique="Coq proof (inductive invariant over a small-step interleaving model) + trace validation of the hooked implementation under a deterministic scheduler + trace monitors",
@@ -161,7 +161,7 @@ CHECKS = {
     "C13": dict(
         text="Theorems (Coq, same pipeline model): a stage-(k+1) handler handles sequence i only after EVERY stage-k handler returned from i; it sees the modifications of all earlier stages and "
              "none of later ones while the slot is not re-used; gating the producer on the last stage only suffices because the last stage is the slowest (no handler of any stage is lapped). "
-             "Trace validation + monitors (stage order, overwrite) on every explored schedule.",
+             "Trace validation, replay of every logged execution on the proof model (Disruptor/PipeReplay.v: accepted => reachable state of Pipeline.v, theorem replay_sound) and monitors (stage order, overwrite) on every explored schedule.",
         note=LEVEL_NOTE_COMMON + "Axioms: none. " + "the deterministic scheduler hooks (cfg deepcausality_rs_deep_causality_verif) make every atomic / mutex / condvar operation and slot access of the real code a scheduling point and log it with its real Ordering; ",
         technique="Coq proof (cursor chain along the stages, inductive invariant) + trace validation + trace monitors under a deterministic scheduler",
         design="§7.R C13"),
@@ -174,7 +174,7 @@ CHECKS = {
              "the multi-producer model with verdict 5 = all published but cursor below the highest claim (mp_property; mp_stranding exhibits it: known finding D8). So 'never past an unpublished sequence' "
              "is proved for the bitmap / low-watermark publish path, any ring size 2^k. (b') TRUE CONCURRENCY (Disruptor/MultiPub.v): any number of producer threads, every atomic operation of next() and "
              "publish() a separate step, any interleaving, consumers moving at any time, any N >= 1: the cursor never covers a sequence whose claimant has not published it (cursor_only_published), "
-             "never decreases, concurrent claims are disjoint; and the stranding of finding D8 is a reachable interleaving (stranding_reachable). (c) single-producer pipeline: cursor never covers an unwritten sequence. The SAME extracted [check] judges the "
+             "never decreases, concurrent claims are disjoint; and the stranding of finding D8 is a reachable interleaving (stranding_reachable). Every multi-producer execution explored under the scheduler is replayed on that model (Disruptor/MultiReplay.v: claims, bit sets / clears, scan tests, cursor CAS attempts and watermark accesses must be enabled steps with the model's values; an accepted trace ends in a reachable state, in which the cursor covers only published sequences: replay_cursor_only_published). (c) single-producer pipeline: cursor never covers an unwritten sequence. The SAME extracted [check] judges the "
              "implementation's histories (harness/ds seqapi: real sequencers driven directly), whose outputs are also compared with the extracted model; monitors on every explored concurrent schedule "
              "(multi producer with 2-3 writer threads, rings of 2..128 slots).",
         note=LEVEL_NOTE_COMMON + "Axioms: none. " + "the deterministic scheduler hooks (cfg deepcausality_rs_deep_causality_verif) make every atomic / mutex / condvar operation and slot access of the real code a scheduling point and log it with its real Ordering; The multi-producer publish path is proved both sequentially against the BitMap word model (SeqApi) and under true concurrency against the bitmap's specification (one bit per residue, C19) in MultiPub; C11 stale reads are not part of that interleaving model.",
